@@ -347,7 +347,7 @@ class NpProxy(types.ModuleType):
 
     # constructors / combinators whose result the traced code may later assign symbolic values into: their
     # numeric result is turned into an object array of symbolic constants (same values, same shape)
-    _SYMBOLIZE = ('tile', 'full', 'full_like', 'ones_like', 'hstack', 'vstack', 'dstack', 'concatenate', 'stack',
+    _SYMBOLIZE = ('tile', 'full', 'full_like', 'hstack', 'vstack', 'dstack', 'concatenate', 'stack',
                   'column_stack', 'copy', 'repeat', 'broadcast_to', 'block', 'append', 'insert', 'roll', 'flip',
                   'transpose', 'swapaxes', 'moveaxis', 'reshape', 'squeeze', 'expand_dims', 'ravel', 'triu', 'tril',
                   'outer', 'kron', 'where', 'matmul', 'multiply', 'add', 'subtract', 'divide', 'negative', 'einsum',
@@ -381,15 +381,25 @@ class NpProxy(types.ModuleType):
         return abs(a)
 
     # constructors
-    def zeros(self, shape, dtype=None): return _fill(shape, 0.0)
-    def ones(self, shape, dtype=None): return _fill(shape, 1.0)
-    def empty(self, shape, dtype=None): return _fill(shape, 0.0)
+    # (every signature accepts numpy's remaining positional / keyword arguments: dtype, order, like, shape, k, ...)
+    def zeros(self, shape, dtype=None, **kw): return _fill(shape, 0.0)
+    def ones(self, shape, dtype=None, **kw): return _fill(shape, 1.0)
+    def empty(self, shape, dtype=None, **kw): return _fill(shape, 0.0)
 
-    def zeros_like(self, a, dtype=None): return _fill(_np.shape(a), 0.0)
-    def empty_like(self, a, dtype=None): return _fill(_np.shape(a), 0.0)
+    def zeros_like(self, a, dtype=None, order='K', subok=True, shape=None, **kw):
+        return _fill(_np.shape(a) if shape is None else shape, 0.0)
 
-    def eye(self, n, m=None, dtype=None): return _obj(_np.eye(n, m))
-    def identity(self, n, dtype=None): return _obj(_np.identity(n))
+    def empty_like(self, a, dtype=None, order='K', subok=True, shape=None, **kw):
+        return _fill(_np.shape(a) if shape is None else shape, 0.0)
+
+    def ones_like(self, a, dtype=None, order='K', subok=True, shape=None, **kw):
+        return _fill(_np.shape(a) if shape is None else shape, 1.0)
+
+    def eye(self, N, M=None, k=0, dtype=None, **kw): return _obj(_np.eye(N, M, k))
+    def identity(self, n, dtype=None, **kw): return _obj(_np.identity(n))
+
+    def positive(self, a):
+        return +_as_sym_array(a, False)
 
     def array(self, a, dtype=None, copy=True):
         return _as_sym_array(a, copy=True)
